@@ -333,14 +333,25 @@ class Session:
         self.steps.append({"op": "sleep", "ticks": ticks})
         self._run(asyncio.sleep(secs(ticks, self.T)))
 
-    def new_loop(self):
-        self.steps.append({"op": "newloop"})
+    def new_loop(self, close_old=True):
+        """close_old=True: what successive asyncio.run() calls do.  False: the previous loop is merely no longer run (a program
+        that keeps several loops around, e.g. loop.run_until_complete() on a fresh loop per call) - it is closed at the end."""
+        self.steps.append({"op": "newloop" if close_old else "newloop-open"})
         self.errors.extend(self.loop.errors)
         now = self.loop.vtime
-        self.loop.shutdown()
+        if close_old:
+            self.loop.shutdown()
+        else:
+            self._parked = getattr(self, "_parked", []) + [self.loop]
         self.loop = VLoop(self.world, start=now, max_time=now + 1e5)
 
     def finish(self):
+        for old in getattr(self, "_parked", []):
+            if not old.is_closed():
+                try:
+                    old.shutdown()
+                except Exception:
+                    pass
         if not self.loop.is_closed():
             self.loop.idle()
             self.errors.extend(self.loop.errors)
